@@ -26,6 +26,7 @@ package main
 // - **deferred                         address of a frame's defer stack
 
 import (
+	"go/token"
 	"bytes"
 	"fmt"
 	"go/types"
@@ -85,6 +86,9 @@ func sameType(x, y types.Type) bool {
 
 // eqv returns x == y for type t as a bool or a symbolic Bool.
 func eqv(t types.Type, x, y value) value {
+	if isBstr(x) || isBstr(y) {
+		return bstrBinop(token.EQL, x, y)
+	}
 	if sx, ok := x.(*sym); ok {
 		return mkEqV(sx, litOf(y))
 	}
